@@ -1,0 +1,9 @@
+//go:build verif
+
+package main
+
+// Contracts for the govc verifier (/verif). Comment-only; excluded from every
+// normal build by the tag above.
+
+//@ func logf
+//@   errdrop fmt.Fprint: diagnostics to stderr; nothing sensible to do when stderr fails
